@@ -17,7 +17,7 @@ EXPLANATION = (
     'handler\'s exception. R3: Worker.create is folded (abstract evaluation of its string construction) for the 3 worker types '
     'x {one-shot, persistent}; the named module and class must exist and declare the same worker_type / is_persistent. '
     'R4: a worker that is not run stores (True, None) and _started = False. R5 (wait-for cycle): a parent-side join of a '
-    'process whose outcome channel is only drained after death is a deadlock for results larger than the pipe buffer.')
+    'process whose outcome channel is only drained after death is a deadlock for results larger than the pipe buffer. R6: no timeout is installed on a socket of the remote protocol (settimeout / setdefaulttimeout / setblocking(False) / create_connection(timeout=)): _recv_exact reports a TimeoutError as a closed connection, so a call that runs longer than the timeout would lose its result for the remote kind only.')
 TECHNIQUE = 'call-chain path counting, writer/reader tuple agreement, constant folding of the factory, wait-for ordering on channel sites'
 
 
@@ -126,6 +126,8 @@ def const_return(func):
 
 
 def run(ctx):
+    from ..sockets import check_blocking_sockets
+    check_blocking_sockets(ctx, 'R6')
     P = ctx.prog
     W = P.cls('Worker')
     runf, dwf, create = W.methods['run'], W.methods['do_work'], W.methods['create']
